@@ -1,0 +1,26 @@
+//go:build verif
+// +build verif
+
+package pbft
+
+// VerifRotateWAL rotates the write-ahead log the way the autofile group's ticker does once the head
+// file has reached its size limit (the head becomes wal.NNN, a new empty head is started).  The /verif
+// drivers use it to put a rotation at a chosen point of a height (build tag "verif").
+func (cs *ConsensusState) VerifRotateWAL() {
+	cs.mtx.Lock()
+	defer cs.mtx.Unlock()
+	if cs.wal != nil {
+		cs.wal.group.Flush()
+		cs.wal.group.RotateFile()
+	}
+}
+
+// VerifWALMaxIndex is the index of the WAL's head file (= number of rotated files).
+func (cs *ConsensusState) VerifWALMaxIndex() int {
+	cs.mtx.Lock()
+	defer cs.mtx.Unlock()
+	if cs.wal == nil {
+		return 0
+	}
+	return cs.wal.group.MaxIndex()
+}
